@@ -44,6 +44,7 @@ def run(ctx):
         iters(ctx, prog)
         consts(ctx, prog)
         into_iter(ctx, prog)
+    for_range(ctx)
     ctx.floor("TAB-STEP", 26)
     ctx.floor("TAB-ITER", 5)
     ctx.floor("ISO", 6)
@@ -86,6 +87,64 @@ def steps(ctx, prog):
                 ctx.instance("TAB-STEP", key, sample={"fn": fn, "type": ty, "next": show(nx)})
             else:
                 char_arm(ctx, prog, b, fn, ps, cur, key)
+
+
+FOR_RANGE_SRC = '''
+#![allow(unused)]
+#[inline(never)] pub fn ea<T>(x: T) { loop {} }
+''' + "".join("pub fn fr_%s(a: %s, b: %s) { konst::for_range!{i in a..b => ea(i); } }\n" % (t, t, t) for t in ("usize", "u8", "i8", "i64", "u128"))
+
+
+def for_range(ctx):
+    """`for_range!{i in a..b => body}` visits a, a+1, .. while the cursor is < b (nothing for a >= b), the body seeing the value
+    the cursor had at the test: the loop relation of the expansion in a witness crate"""
+    from .c19 import witness_program
+    from ..table import lt, le
+    prog, diag = witness_program(ctx, "w09", FOR_RANGE_SRC)
+    if prog is None:
+        ctx.violation("FOR-RANGE", "witness", "the for_range! witness does not compile:\n%s" % diag[-1500:])
+        return
+    for ty in ("usize", "u8", "i8", "i64", "u128"):
+        key = "FULL|for_range|%s" % ty
+        b = prog.get("w09::fr_" + ty)
+        if b is None:
+            ctx.violation("FOR-RANGE", key, "witness missing")
+            continue
+        msg = None
+        try:
+            paths = sym.through_loops(b, prog, keep_back=True)
+        except sym.TooManyPaths:
+            paths = []
+            msg = "too many paths"
+        backs = [p for p in paths if p.kind == "back"]
+        exits = [p for p in paths if p.kind == "return" and any(e[0] == "loop" for e in p.events)]
+        if not backs or not exits:
+            msg = msg or "no counting loop found"
+        cur = None
+        for p in backs:
+            for l, v in p.env.items():
+                if v[0] == "bin" and v[1] == "Add" and v[2] == ("L", l) and is_one(v[3]):
+                    cur = l
+        if cur is None:
+            msg = msg or "the cursor is not advanced by exactly one per iteration"
+        else:
+            C = ("L", cur)
+            for p in backs:
+                if lt(C, P2) not in p.conds:
+                    msg = msg or "the body runs without the test `cursor < end` (conditions: %s)" % [sym.show_atom(c) for c in p.conds]
+                evs = [table.strip_gargs(e[2]) for e in p.events if e[0] == "call" and e[1].endswith("::ea")]
+                if len(evs) != 1 or evs[0][3] != C:
+                    msg = msg or "the body must run once per iteration with the value the cursor had at the test (%s)" % [show(e) for e in evs]
+            for p in exits:
+                if le(P2, C) not in p.conds:
+                    msg = msg or "the loop is left on %s, expected `cursor >= end`" % [sym.show_atom(c) for c in p.conds]
+                for e in p.events:
+                    if e[0] == "loop" and dict(e[2]).get(cur) != P1:
+                        msg = msg or "the cursor starts at %s, expected the range's start" % show(dict(e[2]).get(cur, ("?",)))
+        if msg:
+            ctx.violation("FOR-RANGE", key, "for_range! over %s: %s" % (ty, msg))
+        ctx.instance("FOR-RANGE", key, sample={"type": ty})
+    ctx.floor("FOR-RANGE", 5)
 
 
 def check_flags(fi, fe):
